@@ -58,26 +58,39 @@ def tag_values(tag):
     return out
 
 
+# Interpretation of the abstract key values: concrete = base + abstract, per key column.  The specification is about
+# which values are equal, not about their magnitude; large consecutive identifiers (tomo*10000+n numbering, date-coded
+# tomogram numbers) are inside the property's quantifier.  Non-zero bases are only used where the operation does not
+# write absolute numbers into that column (set per history by run_history).
+BASES = {"sid": 0, "tomo": 0, "obj": 0, "cls": 0}
+BASE_CHOICES = [0, 100000, 250000, 240115, 999998]
+
+
+def set_bases(**kw):
+    for f in BASES:
+        BASES[f] = kw.get(f, 0)
+
+
 def rows_to_df(rows):
     n = len(rows)
     cols = motlutil.empty_rows(n)
     for k, r in enumerate(rows):
         sid, tomo, obj, score, cls, tag = r
-        cols["subtomo_id"][k] = sid
-        cols["tomo_id"][k] = tomo
-        cols["object_id"][k] = obj
+        cols["subtomo_id"][k] = sid + BASES["sid"]
+        cols["tomo_id"][k] = tomo + BASES["tomo"]
+        cols["object_id"][k] = obj + BASES["obj"]
         cols["score"][k] = SCORES[score]
-        cols["class"][k] = cls
+        cols["class"][k] = cls + BASES["cls"]
         for f, v in zip(TAGGED, tag_values(tag)):
             cols[f][k] = v
     return motlutil.df_from_cols(cols)
 
 
 # ---- projection alpha: table -> abstract rows -----------------------------------------------------------
-def _int_or(v, bad=-1):
+def _int_or(v, bad=-1, base=0):
     if v != v or abs(v) > 1e9 or v != int(v):
         return bad
-    return int(v)
+    return int(v) - base
 
 
 def project(df):
@@ -106,8 +119,8 @@ def project(df):
         else:
             tag = 0
         sc = SCORE_INV.get(float(data["score"][k]), -1)
-        rows.append([_int_or(data["subtomo_id"][k]), _int_or(data["tomo_id"][k]), _int_or(data["object_id"][k]),
-                     sc, _int_or(data["class"][k]), tag])
+        rows.append([_int_or(data["subtomo_id"][k], -1, BASES["sid"]), _int_or(data["tomo_id"][k], -1, BASES["tomo"]),
+                     _int_or(data["object_id"][k], -1, BASES["obj"]), sc, _int_or(data["class"][k], -1, BASES["cls"]), tag])
     return rows, cols
 
 
@@ -121,7 +134,7 @@ def apply_op(cm, A, B, op, variant):
     Motl = cm.Motl
     name = op["name"]
     if name == "subset":
-        vals = [float(v) for v in op["vals"]]
+        vals = [float(v + BASES[op["f"]]) for v in op["vals"]]
         arg = vals[0] if (len(vals) == 1 and variant % 2 == 0) else (vals if variant % 3 else [int(v) for v in vals])
         f = KEYCOL[op["f"]]
         if variant % 5 == 0:
@@ -132,7 +145,7 @@ def apply_op(cm, A, B, op, variant):
             return A.get_motl_subset(arg), None
         return A.get_motl_subset(arg, f), None
     if name == "remove":
-        vals = [float(v) for v in op["vals"]]
+        vals = [float(v + BASES[op["f"]]) for v in op["vals"]]
         if len(vals) == 1 and variant % 2 == 0:
             arg = vals[0]
         elif variant % 3 == 0:
@@ -246,6 +259,31 @@ def run_history(ctx, judge, a0, b0, steps, variant, kind, sample_all=False):
     """Steps two live Motl objects through the history; steps: [{op, a, bch, b}] as computed by TLC."""
     from cryocat import cryomotl as cm
     case = {"kind": kind, "a0": a0, "b0": b0, "steps": steps, "variant": variant}
+    try:
+        _set_history_bases(steps, variant)
+        _run_history(ctx, judge, a0, b0, steps, variant, kind, sample_all, case)
+    finally:
+        set_bases()
+
+
+REWRITES = {"merge_renumber": {"sid", "obj"}, "merge_dropdup": {"obj"}, "renumber_particles": {"sid"},
+            "renumber_objects": {"obj"}}
+
+
+def _set_history_bases(steps, variant):
+    """Large bases for the key columns no operation of this history writes absolute numbers into."""
+    written = set()
+    for st in steps:
+        written |= REWRITES.get(st["op"]["name"], set())
+    if variant % 3 == 0:
+        set_bases()
+        return
+    pick = lambda j: BASE_CHOICES[(variant // 3 + j) % len(BASE_CHOICES)]
+    set_bases(**{f: pick(j) for j, f in enumerate(["sid", "tomo", "obj", "cls"]) if f not in written})
+
+
+def _run_history(ctx, judge, a0, b0, steps, variant, kind, sample_all, case):
+    from cryocat import cryomotl as cm
     # row labels of the input tables: default, permuted or gapped (a list handed to cryoCAT may be any DataFrame)
     A = cm.Motl(motlutil.vary_index(rows_to_df(a0), variant // 3))
     B = cm.Motl(motlutil.vary_index(rows_to_df(b0), variant // 7))
@@ -301,20 +339,21 @@ def replay(ctx, case):
 
 
 # ---- initial tables for the simulation scope ---------------------------------------------------------------
-def gen_table(rng, n, tag0, like=None):
-    """Random abstract table: unsorted, repeated subtomogram numbers, few tomograms / objects / classes, score ties."""
+def gen_table(rng, n, tag0, like=None, bases=(0, 0, 0, 0)):
+    """Random abstract table: unsorted, repeated subtomogram numbers, few tomograms / objects / classes, score ties;
+    bases: offsets of the sid / tomo / obj / cls values (large consecutive identifiers)."""
     ntomo, nobj, ncls = rng.randint(1, 4), rng.randint(1, 5), rng.randint(1, 3)
     top = max(2, int(n * rng.choice([0.4, 0.8, 1.5])))
     rows = []
     for i in range(n):
         if like and rng.random() < 0.6:
             src = like[rng.randrange(len(like))]
-            sid, tomo, obj = src[0], src[1], rng.choice([src[2], rng.randint(1, nobj)])
+            sid, tomo, obj = src[0], src[1], rng.choice([src[2], bases[2] + rng.randint(1, nobj)])
             score = rng.choice([src[3], rng.randint(1, NSCORE_SIM)])
         else:
-            sid, tomo, obj, score = rng.randint(1, top), rng.randint(1, ntomo), rng.randint(1, nobj), \
-                rng.randint(1, NSCORE_SIM if rng.random() < 0.8 else 3)
-        rows.append([sid, tomo, obj, score, rng.randint(1, ncls), tag0 + i + 1])
+            sid, tomo, obj, score = bases[0] + rng.randint(1, top), bases[1] + rng.randint(1, ntomo), \
+                bases[2] + rng.randint(1, nobj), rng.randint(1, NSCORE_SIM if rng.random() < 0.8 else 3)
+        rows.append([sid, tomo, obj, score, bases[3] + rng.randint(1, ncls), tag0 + i + 1])
     return rows
 
 
@@ -323,9 +362,10 @@ def write_inits(ctx, name, sizes):
     path = os.path.join(ctx.sub(name), "inits.ndjson")
     with open(path, "w") as fh:
         for n in sizes:
-            a = gen_table(rng, n, 0)
+            bases = (0, 0, 0, 0) if rng.random() < 0.5 else tuple(rng.choice(BASE_CHOICES) for _ in range(4))
+            a = gen_table(rng, n, 0, bases=bases)
             nb = rng.choice([0, 1, max(1, n // 2), n]) if n else rng.randint(0, 3)
-            b = gen_table(rng, min(nb, 200), 500, like=a or None)
+            b = gen_table(rng, min(nb, 200), 500, like=a or None, bases=bases)
             fh.write(json.dumps({"a": a, "b": b}) + "\n")
     return path
 
